@@ -90,6 +90,7 @@ func run(pd *propDef, r *Report, dir, tier string) (code int) {
 		r.undecided("LOAD", "load", "", "", err.Error())
 		return 1
 	}
+	c.markRoles()
 	r.Extra["packages"] = c.LoadNote
 	r.Extra["configs"] = []string{"default (GOARCH of host), module packages without tests"}
 	pd.rules(c, r)
@@ -110,6 +111,7 @@ func thoroughCommon(pd *propDef, c *Ctx, r *Report, dir string) {
 		r.undecided("LOAD", "load-386", "", "", err.Error())
 		return
 	}
+	c2.markRoles()
 	r2 := newReport(r.Property, r.Tier)
 	func() {
 		defer func() {
